@@ -226,6 +226,23 @@ def run(ctx):
         open(path, "w").write(A.render_amp(doc))
         files.append((path, doc, "generated"))
 
+    # two files that always have spline resonances whose number of bins disagrees with the number of knot parameters written
+    # (fewer bins than knots: a file whose N was lowered; more bins than knots)
+    for j, delta in enumerate((-1, 2)):
+        doc = [["event_type", ["D0", "K-", "pi+", "pi+", "pi-"]]]
+        for r3 in ("K(1)(1270)bar-", "K(1460)bar-"):
+            r2, b = A.CASCADE[r3][0]
+            doc.append(["line", ["D", "D0", None, None, [["D", r3, None, "GSpline.EFF", [A.two_body(rng, r2), ["D", b, None, None, []]]],
+                                                         ["D", A.BACHELOR[r3], None, None, []]]]] + A.coupling(rng))
+        doc += A.required_families(doc, rng)
+        for st in doc:
+            if st[0] == "constant" and st[1].endswith("::Spline::N"):
+                nm = st[1][: -len("::Spline::N")]
+                st[2] = str(max(1, sum(1 for s2 in doc if s2[0] == "variable" and s2[1].startswith(nm + "::Spline::Gamma::")) + delta))
+        path = os.path.join(tmp, f"knots{j}.txt")
+        open(path, "w").write(A.render_amp(doc))
+        files.append((path, doc, "generated:knots-vs-bins"))
+
     def check_one(path, doc, label, ctext, ptext, step):
         case = {"kind": "convert", "label": label, "file": open(path).read() if label != "shipped" else "models/DtoKpipipi_v2.txt", "step": step}
         c = parse_output(ctext, False)
